@@ -47,21 +47,71 @@ func guard(f func() error) (err error) {
 	}
 }
 
-func writeObj(b storage.BucketHandle, name string, data []byte) error {
+// source holds the objects that are copied from: an FS bucket below a root of
+// its own (outside the tree that is compared with the model), filled directly
+// through the file system.
+type source struct {
+	dir string
+	b   storage.BucketHandle
+	n   int
+}
+
+func newSource(t *testing.T) *source {
+	dir := t.TempDir()
+	b, err := storage.NewFSBucket(context.Background(), dir, "src")
+	if err != nil {
+		t.Fatal(err)
+	}
+	return &source{dir: dir, b: b}
+}
+
+func (s *source) object(t *testing.T, data []byte) storage.ObjectHandle {
+	s.n++
+	name := fmt.Sprintf("o%d", s.n)
+	if err := os.WriteFile(filepath.Join(s.dir, "src", name), data, 0666); err != nil {
+		t.Fatal(err)
+	}
+	return s.b.Object(name)
+}
+
+// writeObj stores data under name in one of the ways a caller can:
+//
+//	"write":   NewWriter, Write twice (two halves; for empty data two empty
+//	           Writes), Close
+//	"nowrite": NewWriter, Close -- no Write call at all (empty data only)
+//	"copy":    storage.Copy from a source object that holds data
+func writeObj(t *testing.T, src *source, b storage.BucketHandle, name string, data []byte, style string) error {
+	var from storage.ObjectHandle
+	if style == "copy" {
+		from = src.object(t, data)
+	}
 	return guard(func() error {
+		if style == "copy" {
+			if err := storage.Copy(context.Background(), b.Object(name), from); err != nil {
+				return fmt.Errorf("Copy: %w", err)
+			}
+			return nil
+		}
 		w, err := b.Object(name).NewWriter(context.Background())
 		if err != nil {
 			return fmt.Errorf("NewWriter: %w", err)
 		}
-		// two chunks, to notice writers that keep only the last Write
-		h := len(data) / 2
-		if _, err := w.Write(data[:h]); err != nil {
-			w.Close()
-			return fmt.Errorf("Write: %w", err)
-		}
-		if _, err := w.Write(data[h:]); err != nil {
-			w.Close()
-			return fmt.Errorf("Write: %w", err)
+		if style == "nowrite" {
+			if len(data) != 0 {
+				w.Close()
+				return errors.New("harness: nowrite with data")
+			}
+		} else {
+			// two chunks, to notice writers that keep only the last Write
+			h := len(data) / 2
+			if _, err := w.Write(data[:h]); err != nil {
+				w.Close()
+				return fmt.Errorf("Write: %w", err)
+			}
+			if _, err := w.Write(data[h:]); err != nil {
+				w.Close()
+				return fmt.Errorf("Write: %w", err)
+			}
 		}
 		if err := w.Close(); err != nil {
 			return fmt.Errorf("Close: %w", err)
@@ -142,6 +192,7 @@ type rstep struct {
 	Name   string                       `json:"name"`
 	Data   string                       `json:"data"`
 	Prefix string                       `json:"prefix"`
+	Style  string                       `json:"style"`
 	Exists bool                         `json:"exists"` // read: expected
 	Want   string                       `json:"want"`   // read: expected data id
 	List   []string                     `json:"list"`   // list: expected names
@@ -199,6 +250,7 @@ func TestVerifC18Replay(t *testing.T) {
 	}
 	matched, steps := 0, 0
 	ctx := context.Background()
+	src := newSource(t)
 	for _, bh := range in.Behaviours {
 		parent := t.TempDir()
 		root := filepath.Join(parent, "root")
@@ -221,7 +273,7 @@ func TestVerifC18Replay(t *testing.T) {
 			steps++
 			bad := func(what string, extra rt.M) {
 				good = false
-				m := rt.M{"kind": "mismatch", "what": what, "id": bh.ID, "step": i, "op": st.Op, "b": st.B, "name": st.Name, "prefix": st.Prefix, "data": st.Data}
+				m := rt.M{"kind": "mismatch", "what": what, "id": bh.ID, "step": i, "op": st.Op, "b": st.B, "name": st.Name, "prefix": st.Prefix, "data": st.Data, "style": st.Style}
 				for k, v := range extra {
 					m[k] = v
 				}
@@ -230,7 +282,7 @@ func TestVerifC18Replay(t *testing.T) {
 			switch st.Op {
 			case "init":
 			case "write":
-				if err := writeObj(bk[st.B], st.Name, datas[st.Data]); err != nil {
+				if err := writeObj(t, src, bk[st.B], st.Name, datas[st.Data], st.Style); err != nil {
 					bad("write-error", rt.M{"err": err.Error()})
 				}
 			case "read":
@@ -356,6 +408,7 @@ func TestVerifC18Random(t *testing.T) {
 	r := rand.New(rand.NewSource(rt.Seed()*7919 + 18))
 	ctx := context.Background()
 	nops := 0
+	src := newSource(t)
 	for h := 0; h < in.Histories; h++ {
 		parent := t.TempDir()
 		root := filepath.Join(parent, "root")
@@ -434,9 +487,9 @@ func TestVerifC18Random(t *testing.T) {
 				}
 				var ln int
 				switch r.Intn(6) {
-				case 0:
+				case 0, 1:
 					ln = 0
-				case 1:
+				case 2:
 					ln = 70000 + r.Intn(70000)
 				default:
 					ln = 1 + r.Intn(40)
@@ -447,8 +500,12 @@ func TestVerifC18Random(t *testing.T) {
 					id = old
 				}
 				datas[string(d)] = id
-				err := writeObj(bk[b], n, d)
-				rec := rt.M{"kind": "obs", "op": "write", "h": h, "b": b, "name": comps(n), "data": id, "ok": err == nil, "text": n}
+				style := []string{"write", "copy"}[r.Intn(2)]
+				if ln == 0 {
+					style = []string{"nowrite", "nowrite", "write", "copy"}[r.Intn(4)]
+				}
+				err := writeObj(t, src, bk[b], n, d, style)
+				rec := rt.M{"kind": "obs", "op": "write", "h": h, "b": b, "name": comps(n), "data": id, "ok": err == nil, "text": n, "style": style, "empty": ln == 0}
 				if err != nil {
 					rec["err"] = err.Error()
 				}
